@@ -441,11 +441,14 @@ package types
 //@ func (ConfigObjConfig).MarshalYAML
 //@   nopanic[C20,C09]
 //@   ensures[C20] err == nil
-//@?  ensures[C20,C09] s.Environment != "" ==> unbox(result.0).Content == "" && unbox(result.0).Environment == s.Environment
-//@?  ensures[C20,C09] s.Environment == "" ==> unbox(result.0).Content == s.Content
+//@   ensures[C20,C09] isType(result.0, FileObjectConfig)
+//@   ensures[C20,C09] s.Environment != "" ==> unbox(result.0, FileObjectConfig).Content == "" && unbox(result.0, FileObjectConfig).Environment == s.Environment
+//@   ensures[C20,C09] s.Environment == "" ==> unbox(result.0, FileObjectConfig).Content == s.Content
 
+// the JSON rendering is json.Marshal of the same blanked copy the YAML rendering returns
 //@ func (ConfigObjConfig).MarshalJSON
 //@   nopanic[C20,C09]
+//@   callsite[C20,C09] encoding/json.Marshal : isType(arg0, FileObjectConfig) && (s.Environment != "" ==> unbox(arg0, FileObjectConfig).Content == "" && unbox(arg0, FileObjectConfig).Environment == s.Environment) && (s.Environment == "" ==> unbox(arg0, FileObjectConfig).Content == s.Content)
 
 //@ func (Config).MarshalJSON
 //@   nopanic[C09]
